@@ -68,6 +68,9 @@ def check(ctx, report):
     absent_directive_defaults(ctx, report)
     decoded_documents(ctx, report)
     validator_agreement(ctx, report)
+    # a function of the parse side that reaches itself recurses once per item of the input: RecursionError is not a parse error
+    from .c19 import function_recursion
+    function_recursion(ctx, report, RULE='C02.R9')
     report.rule('C02.R4', 'risky operations on input derived values are guarded or converted')
     deep = Interp(model, deep=True)
     es = Escape(model, deep)
